@@ -398,6 +398,18 @@ def check(ctx):
                 r3.bad(V(r3.id, gid, "index-source:%s" % t[:60], "the index is not built from the writer's list: %s" % t, c.file, c.line))
         if not gi:
             r3.bad(V(r3.id, gid, "no-index", "no index file is generated"))
+        # ... and the list is read when it is complete: no content file is written after the index was rendered from the list (a file written
+        # later — events.ts — exists on disk but is not re-exported)
+        from rulelib import blocks_reachable_from as _brf
+        for c in gi:
+            after = _brf(f, c.bb)
+            late = sorted({short_path(w_.best) for w_ in f.calls if w_.bb in f.reach_blocks and w_.bb in after and w_.bb != c.bb
+                           and re.search(r"FileWriter::write_\w+_file$", short_path(w_.best)) and not short_path(w_.best).endswith("write_index_file")})
+            if late:
+                r3.bad(V(r3.id, gid, "index-rendered-before:%s" % ",".join(late), "%s renders the index from the writer's list and writes %s afterwards: that file is not "
+                         "re-exported by index.ts" % (short_path(gid), late), c.file, c.line))
+            else:
+                r3.ok("%s: the index is rendered after the last content file was written" % short_path(gid))
     wt = P.find("FileWriter::write_typescript_file")
     for f in wt:
         from rulelib import continue_edge_of_try, blocks_reachable_from
